@@ -7,8 +7,6 @@
 import HSModel.Proofs.Serial
 namespace HS
 
-abbrev Post0 : List Lock → Except Exc Val → Prop := fun h _ => h = []
-
 /-- every lock list of the world is duplicate-free -/
 def LkNodup (w : World) : Prop := ∀ c, (w.lk.get c).Nodup
 
